@@ -31,7 +31,7 @@ class Bottom(Exception):
 
 
 class State:
-    __slots__ = ("out", "inn", "tag", "nottag", "optf", "condf", "dead")
+    __slots__ = ("out", "inn", "tag", "nottag", "optf", "condf", "dead", "sums")
 
     def __init__(self):
         self.out = {}     # x -> {y: c}   x - y <= c
@@ -40,6 +40,7 @@ class State:
         self.nottag = {}  # enum path -> frozenset of excluded variant names
         self.optf = {}    # (path, variant) -> [(x, y, c)]  facts that hold when path has that variant
         self.condf = {}   # bool path -> ([facts if true], [facts if false])
+        self.sums = set() # (t, x, y, c): t = x + y + c for three variables (x <= y by repr); what a difference bound cannot say
         self.dead = False
 
     def copy(self):
@@ -50,6 +51,7 @@ class State:
         s.nottag = dict(self.nottag)
         s.optf = {k: list(v) for k, v in self.optf.items()}
         s.condf = {k: (list(v[0]), list(v[1])) for k, v in self.condf.items()}
+        s.sums = set(self.sums)
         s.dead = self.dead
         return s
 
@@ -94,6 +96,13 @@ class State:
         self.add(y, x, -c)
 
     def forget(self, v):
+        if self.sums:
+            gone = [tr for tr in self.sums if v in tr[:3]]
+            if gone:
+                self.sums = {tr for tr in self.sums if v not in tr[:3]}
+                for tr in gone:
+                    if tr[0] != v and tr[0][0] == "s":
+                        self.forget(tr[0])      # the name of a sum dies with either operand
         for y in list(self.out.get(v, {})):
             self.inn.get(y, {}).pop(v, None)
         for x in list(self.inn.get(v, {})):
@@ -116,6 +125,53 @@ class State:
     def const_of(self, x):
         u, l = self.ub(x), self.lb(x)
         return u if u is not None and u == l else None
+
+    # -- three-variable sums ---------------------------------------------------------------------------
+    def add_sum(self, t, x, y, c):
+        """Record t = x + y + c.  The sum x + y gets one name of its own, S = ("s", x|y), whichever temporary holds it: equal
+        sums are equal by construction (value numbering) and facts about the sum survive the temporaries and meet at joins."""
+        if self.dead or Z in (t, x, y) or t in (x, y) or "s" in (t[0], x[0], y[0]):
+            return
+        if repr(y) < repr(x):
+            x, y = y, x
+        S = ("s", "%s|%s" % (show_var(x), show_var(y)))
+        tr = (S, x, y, 0)
+        fresh = tr not in self.sums
+        self.sums.add(tr)
+        self.eq(t, S, c)
+        if fresh:
+            self.saturate_sums(only=tr)
+
+    def saturate_sums(self, only=None):
+        """t1 = x1 + y + c1, t2 = x2 + y + c2  =>  t1 - t2 = (x1 - x2) + (c1 - c2): carry the bounds on x1 - x2 over (both ways)."""
+        if self.dead or len(self.sums) < 2:
+            return
+        trs = list(self.sums)
+        firsts = [only] if only is not None else trs
+        for a in firsts:
+            for b in trs:
+                if a is b or a == b:
+                    continue
+                t1, xa, ya, c1 = a
+                t2, xb, yb, c2 = b
+                for (p1, q1) in ((xa, ya), (ya, xa)):
+                    for (p2, q2) in ((xb, yb), (yb, xb)):
+                        if q1 != q2:
+                            continue
+                        d = 0 if p1 == p2 else self.get(p1, p2)
+                        if d is not None:
+                            self.add(t1, t2, d + c1 - c2)
+                        d = 0 if p1 == p2 else self.get(p2, p1)
+                        if d is not None:
+                            self.add(t2, t1, d + c2 - c1)
+        # a sum bounds its parts: t - x = y + c
+        for (t, x, y, c) in firsts:
+            for (p, q) in ((x, y), (y, x)):
+                u, l_ = self.get(q, Z), self.get(Z, q)
+                if u is not None:
+                    self.add(t, p, u + c)
+                if l_ is not None:
+                    self.add(p, t, l_ - c)
 
     # -- paths ------------------------------------------------------------------------------------
     @staticmethod
@@ -253,6 +309,7 @@ def join(a, b, widen=False):
     for p, (tf, ff) in a.condf.items():
         if p in b.condf:
             r.condf[p] = ([f for f in tf if f in b.condf[p][0]], [f for f in ff if f in b.condf[p][1]])
+    r.sums = a.sums & b.sums
     return r
 
 
@@ -261,7 +318,7 @@ def same(a, b):
         return a is b
     if a.dead != b.dead:
         return False
-    return a.out == b.out and a.tag == b.tag and a.nottag == b.nottag and a.optf == b.optf and a.condf == b.condf
+    return a.out == b.out and a.tag == b.tag and a.nottag == b.nottag and a.optf == b.optf and a.condf == b.condf and a.sums == b.sums
 
 
 # ---------------------------------------------------------------------------------------------------------
@@ -283,6 +340,10 @@ class Analyzer:
         self.summaries = summaries if summaries is not None else {}
         self.axioms = axioms or []
         self.refcache = {}
+        # adt id -> [(kind_x, field_x, kind_y, field_y, c)]:  self.<x> - self.<y> <= c  holds whenever control is outside the type's
+        # own methods.  Assumed at the entry of methods taking &self / &mut self, proven at every construction and at every return of
+        # a &mut self method (obligation kind "invariant").
+        self.invariants = {}
 
     # ---- paths ---------------------------------------------------------------------------------------
     def ref_source(self, fn, l):
@@ -437,7 +498,7 @@ class Analyzer:
             tgt = P + ".0" if op.endswith("WithOverflow") else P
             base = op.replace("WithOverflow", "").replace("Unchecked", "")
             if a and b and base in ("Add", "Sub"):
-                todo.append(("arith", base, a, b, tgt))
+                todo.append(("arith", base, self.canon(st, a), self.canon(st, b), tgt))
             elif base in ("BitAnd",) and a and b:
                 todo.append(("and", a, b, tgt))
             elif base in ("Lt", "Le", "Gt", "Ge", "Eq", "Ne") and a and b:
@@ -572,6 +633,8 @@ class Analyzer:
             d2 = st.get(xb, xa)
             if d2 is not None:
                 st.add(Z, tgt, d2 - ca + cb)
+            # tgt = xa + ca - xb - cb   <=>   xa = tgt + xb + (cb - ca)
+            st.add_sum(xa, tgt, xb, cb - ca)
         else:
             if xa == Z and xb == Z:
                 st.eq(tgt, Z, ca + cb)
@@ -588,6 +651,7 @@ class Analyzer:
                     st.add(tgt, p, hi + ca + cb)
                 if lo is not None:
                     st.add(p, tgt, -(lo + ca + cb))
+            st.add_sum(tgt, xa, xb, ca + cb)
 
     def cmp_facts(self, st, base, a, b, truth):
         (xa, ca), (xb, cb) = a, b
@@ -802,6 +866,19 @@ class Analyzer:
                     post.append(("settag", st.tag[A[0]]))
         elif name_is("Option::<T>::ok_or_else", "Option::<T>::ok_or") and nargs == 2 and A[0]:
             post.append(("some_to_ok", A[0]))
+        elif rp == "<I as core::iter::traits::collect::IntoIterator>::into_iter" and nargs == 1 and A[0]:
+            # the blanket impl for iterators is the identity
+            post.append(("alias", A[0]))
+        elif name_is("Iterator for core::ops::range::Range<A>>::next") and nargs == 1 and A[0]:
+            # Some(v): v = old start, v < end; the end does not change, the start only grows
+            R = A[0]
+            e_, s_ = ("v", R + ".end"), ("v", R + ".start")
+            lo = st.lb(s_)
+            facts = [(("v", D + ".@Some.0"), e_, -1)]
+            if lo is not None:
+                facts.append((Z, ("v", D + ".@Some.0"), -lo))
+            post.append(("optf", "Some", facts, R))
+            post.append(("range_next", R, lo))
         elif name_is("ThreadPool::install") and nargs == 2 and A[1]:
             cl = None
             e = df.operand_expr(fn, t["args"][1])
@@ -810,9 +887,13 @@ class Analyzer:
         elif rp in self.summaries and self.summaries[rp] is not None:
             post.append(("summary", rp))
         # havoc what is mutably borrowed by the call
+        keep_end = {p[1] for p in post if p[0] == "range_next"}
         for i, aty in enumerate(t["argtys"]):
             if aty.startswith("&mut ") and A[i]:
-                st.forget_prefix(A[i])
+                if A[i] in keep_end:
+                    st.forget_prefix(A[i] + ".start")      # Range::next only moves the start
+                else:
+                    st.forget_prefix(A[i])
         # evaluate deferred parts that read argument state before the dest is overwritten
         pre = {}
         for p in post:
@@ -944,6 +1025,9 @@ class Analyzer:
                     st.tag[D] = "Err"
             elif kind == "summary":
                 self.apply_summary(fn, st, t, D, A, T, self.summaries[p[1]])
+            elif kind == "range_next":
+                if p[2] is not None:
+                    st.add(Z, ("v", p[1] + ".start"), -p[2])
             elif kind == "settag":
                 st.tag[D] = p[1]
             elif kind == "closure_summary":
@@ -1280,6 +1364,16 @@ class Analyzer:
                 break
             if s["k"] == "assign":
                 self.assign(fn, st, s)
+                if obligations is not None and s["rv"]["k"] == "agg" and s["rv"].get("adt") in self.invariants:
+                    P = self.cpath(fn, s["lhs"], st, lhs=True)
+                    for inv in self.invariants[s["rv"]["adt"]]:
+                        x, y, c = self.inv_fact(P, inv)
+                        if y[0] == "#":
+                            self.bound_len(st, y[1])
+                        ok = st.dead or self.prove(st, x, 0, y, 0, c)
+                        fake = {"k": "assign-site", "sp": s.get("sp")}
+                        obligations.append(Obligation(fn, bb, s, "invariant", "%s.%s - .%s <= %d established at construction" % (
+                            s["rv"]["adt"].split("::")[-1], inv[1], inv[3], c), ok, "holds for the constructed value" if ok else self.explain(st, x, y)))
             elif s["k"] == "setdiscr":
                 P = self.cpath(fn, s["lhs"], st, lhs=True)
                 st.forget_prefix(P)
@@ -1307,12 +1401,58 @@ class Analyzer:
                 self.bound_len(st, "L%d" % i)
         for p, ex in self.entry_nottag.get(fn.id, {}).items():
             st.nottag[p] = frozenset(ex)
+        for inv in self.self_invariants(fn):
+            x, y, c = self.inv_fact("L1", inv)
+            for v in (x, y):
+                if v[0] == "#":
+                    self.bound_len(st, v[1])
+            st.add(x, y, c)
         for p, (lo, hi) in self.entry_bounds.get(fn.id, {}).items():
             if lo is not None:
                 st.add(Z, ("v", p), -lo)
             if hi is not None:
                 st.add(("v", p), Z, hi)
         return st
+
+    def self_adt(self, fn):
+        """(adt id, is_mut) when parameter 1 is a reference to a type that has declared invariants."""
+        if fn.arg_count < 1 or not self.invariants:
+            return None
+        ty = fn.local_ty(1)
+        mut = ty.startswith("&mut ")
+        if not ty.startswith("&"):
+            return None
+        t = ty[5:] if mut else ty[1:]
+        t = t.strip()
+        while t.startswith("'"):
+            t = t.split(" ", 1)[1] if " " in t else t
+        for adt in self.invariants:
+            if t == adt or t.startswith(adt + "<"):
+                return adt, mut
+        return None
+
+    def self_invariants(self, fn):
+        r = self.self_adt(fn)
+        return self.invariants[r[0]] if r else []
+
+    @staticmethod
+    def inv_fact(base, inv):
+        kx, fx, ky, fy, c = inv
+        return ((kx, "%s.%s" % (base, fx)), (ky, "%s.%s" % (base, fy)), c)
+
+    def invariant_obligations(self, fn, outs, out):
+        r = self.self_adt(fn)
+        if not r or not r[1]:
+            return
+        for bb in cfg.exits(fn):
+            st = outs[bb]
+            if st is None or fn.blocks[bb]["cleanup"]:
+                continue
+            for inv in self.invariants[r[0]]:
+                x, y, c = self.inv_fact("L1", inv)
+                ok = st.dead or self.prove(st, x, 0, y, 0, c)
+                out.append(Obligation(fn, bb, fn.blocks[bb]["term"], "invariant", "%s.%s - %s.%s <= %d restored at return" % (r[0].split("::")[-1], inv[1], r[0].split("::")[-1], inv[3], c),
+                                      ok, "invariant holds again" if ok else self.explain(st, x, y)))
 
     # ---- liveness (keeps the states small: facts about dead temporaries are dropped) ------------------------------
     def root_locals(self, fn, pl, acc, depth=0):
@@ -1400,6 +1540,41 @@ class Analyzer:
                 m = _ROOT.match(v[1])
                 if m and int(m.group(1)) not in live:
                     dead.append(v)
+        if st.sums and dead:
+            deadset = set(dead)
+
+            def live_equal(v):
+                """(z, k) with v = z + k for a variable z that stays, or None."""
+                for y, c in st.out.get(v, {}).items():
+                    if y != Z and y not in deadset and st.get(y, v) == -c:
+                        return y, c
+                return None
+            new = set()
+            for (t, x, y, c) in st.sums:
+                tr, cc = [t, x, y], c
+                for i, v in enumerate(tr):
+                    if v in deadset:
+                        r = live_equal(v)
+                        if r:
+                            tr[i] = r[0]
+                            cc += -r[1] if i == 0 else r[1]
+                if tr[0] in tr[1:] or Z in tr:
+                    continue
+                if repr(tr[2]) < repr(tr[1]):
+                    tr[1], tr[2] = tr[2], tr[1]
+                new.add((tr[0], tr[1], tr[2], cc))
+            st.sums = new
+            # a dead variable that is the only dead member of a sum stays (as a ghost): the sum ties it to values that are still around
+            kept = set()
+            changed = True
+            while changed:
+                changed = False
+                for tr in st.sums:
+                    dv = [v for v in tr[:3] if v in deadset and v not in kept]
+                    if len(dv) == 1:
+                        kept.add(dv[0])
+                        changed = True
+            dead = [v for v in dead if v not in kept]
         for v in dead:
             st.forget(v)
         for coll in (st.tag, st.nottag, st.condf):
@@ -1467,6 +1642,8 @@ class Analyzer:
                 self.transfer_block(fn, dead, bb, obligations if want_obligations else None)
                 continue
             outs[bb] = self.transfer_block(fn, st, bb, obligations if want_obligations else None)
+        if want_obligations:
+            self.invariant_obligations(fn, outs, obligations)
         return instate, outs, obligations
 
     # ---- summaries --------------------------------------------------------------------------------------------------------
@@ -1557,4 +1734,6 @@ class Analyzer:
 def show_var(v):
     if v == Z:
         return "0"
+    if v[0] == "s":
+        return "(%s)" % v[1].replace("|", " + ")
     return ("len(%s)" % v[1]) if v[0] == "#" else v[1]
